@@ -7,7 +7,7 @@ StdConts == { C(1, 0, 0, "none", FALSE, 0), C(2, 0, 0, "mh", FALSE, 0), C(2, 1, 
               C(2, 1, 0, "sorted", TRUE, 2) }
 SmallConts == { C(1, 0, 0, "none", FALSE, 0), C(2, 0, 0, "mh", FALSE, 0), C(2, 1, 7, "sorted", FALSE, 0), C(2, 59, 0, "none", FALSE, 0) }
 
-StdRoots == { <<>>, <<"b1">>, <<"b3", "b4">>, <<"b1", "b1">> }
+StdRoots == { <<>>, <<"b1">>, <<"b3", "b4">>, <<"b1", "b1">>, <<"b22">> }    \* b22: 305-byte identity CID root
 (* valid blocks only: verifying readers hash them *)
 IdsA == {"b1", "b2", "b3", "b4", "b5", "b6", "b10", "b20"}          \* collisions: same mh / same digest / v0 / identity
 IdsB == {"b1", "b8", "b9", "b12", "b13", "b14", "b19"}                   \* widths, empty data, varint boundaries, long CID
